@@ -137,11 +137,18 @@ func TestVerifRacePool(t *testing.T) {
 					if err == nil && r.Done != nil {
 						reply.Key = key
 						var derr error
-						switch rng.Intn(4) {
-						case 0:
+						quiet := (time.Now().UnixNano()/int64(4*time.Millisecond))%2 == 1
+						switch {
+						case quiet || rng.Intn(4) == 0:
+							// no response in a quiet phase: the channel looks unresponsive, a refresh starts,
+							// the serialised goroutine reports the replacement READY, the swap meets the
+							// completion callbacks of the next phase
 							<-ctx.Done()
+							if quiet {
+								time.Sleep(time.Duration(200+rng.Intn(1500)) * time.Microsecond)
+							}
 							derr = status.Error(codes.DeadlineExceeded, context.DeadlineExceeded.Error())
-						case 1:
+						case rng.Intn(3) == 0:
 							derr = status.Error(codes.Unavailable, "x")
 						}
 						r.Done(balancer.DoneInfo{Err: derr})
@@ -177,6 +184,14 @@ func TestVerifRaceME(t *testing.T) {
 				"default": {Endpoints: []string{"e1", fmt.Sprintf("e%d", 2+i%2)}, RecoveryTimeout: time.Millisecond, SwitchingDelay: time.Millisecond},
 				"read":    {Endpoints: []string{fmt.Sprintf("e%d", 2+i%3), "e1"}, RecoveryTimeout: time.Millisecond},
 			}}
+	}
+	mkBase := mk
+	mk = func(i int) *GCPMultiEndpointOptions {
+		o := mkBase(i)
+		if i%2 == 1 { // a named MultiEndpoint that comes and goes
+			o.MultiEndpoints["extra"] = &multiendpoint.MultiEndpointOptions{Endpoints: []string{"e1", "e3"}, RecoveryTimeout: 300 * time.Microsecond}
+		}
+		return o
 	}
 	gme, err := NewGCPMultiEndpoint(mk(0))
 	if err != nil {
@@ -225,8 +240,85 @@ func TestVerifRaceME(t *testing.T) {
 			time.Sleep(200 * time.Microsecond)
 		}
 	}()
+	// pool state reports from their own goroutines (what the monitor goroutines do), concurrent with the updates
+	for g := 0; g < 2; g++ {
+		wg.Add(1)
+		go func(g int) {
+			defer wg.Done()
+			for i := g; ; i++ {
+				select {
+				case <-stop:
+					return
+				default:
+				}
+				gme.mu.RLock()
+				mcs := []*monitoredConn{}
+				for _, m := range gme.pools {
+					mcs = append(mcs, m)
+				}
+				gme.mu.RUnlock()
+				for _, mc := range mcs {
+					mc.notify([]connectivity.State{connectivity.Ready, connectivity.TransientFailure, connectivity.TransientFailure}[i%3])
+				}
+				time.Sleep(time.Duration(100+50*g) * time.Microsecond)
+			}
+		}(g)
+	}
 	time.Sleep(600 * time.Millisecond)
 	close(stop)
 	wg.Wait()
 	gme.Close()
+}
+
+// TestVerifRaceTimers: recovery and switch timers that really fire (tiny timeouts, real clock) while
+// other goroutines report availability, replace the endpoint list and read Current().
+func TestVerifRaceTimers(t *testing.T) {
+	if os.Getenv("VERIF_RACE") == "" {
+		t.Skip("VERIF_RACE not set")
+	}
+	me, err := multiendpoint.NewMultiEndpoint(&multiendpoint.MultiEndpointOptions{
+		Endpoints: []string{"a", "b", "c"}, RecoveryTimeout: 150 * time.Microsecond, SwitchingDelay: 100 * time.Microsecond})
+	if err != nil {
+		t.Fatal(err)
+	}
+	stop := make(chan struct{})
+	var wg sync.WaitGroup
+	for g := 0; g < 3; g++ {
+		wg.Add(1)
+		go func(g int) {
+			defer wg.Done()
+			ids := []string{"a", "b", "c"}
+			for i := 0; ; i++ {
+				select {
+				case <-stop:
+					return
+				default:
+				}
+				e := ids[(i+g)%3]
+				me.SetEndpointAvailability(e, true)
+				time.Sleep(time.Duration(50+40*g) * time.Microsecond)
+				me.SetEndpointAvailability(e, false)
+				// long enough for the recovery timer of e to fire while the others keep reporting
+				time.Sleep(time.Duration(200+60*g) * time.Microsecond)
+				_ = me.Current()
+			}
+		}(g)
+	}
+	wg.Add(1)
+	go func() {
+		defer wg.Done()
+		lists := [][]string{{"a", "b", "c"}, {"c", "a"}, {"b", "c", "a"}, {"a", "b"}}
+		for i := 0; ; i++ {
+			select {
+			case <-stop:
+				return
+			default:
+			}
+			me.SetEndpoints(lists[i%len(lists)])
+			time.Sleep(300 * time.Microsecond)
+		}
+	}()
+	time.Sleep(500 * time.Millisecond)
+	close(stop)
+	wg.Wait()
 }
